@@ -7,10 +7,19 @@ claim("C22",
       "Symbolic execution of the real cbe.Encoder on a fully symbolic 64-bit integer / float bit pattern against a spec-derived size oracle: unsat for all 2^64 values per entry.",
       "Oracle = CBE size table written from the specification (DESIGN.md A.1). Trusted: go/ssa lowering, gosym semantics (self-test), z3.",
       "DESIGN.md §5 C22")
-for pid in ["C02","C04","C05","C07","C08","C09","C10","C11","C12","C13","C14","C15","C16","C18","C19","C23","C24","C25","C26","C27","C28","C29"]:
-    na(pid, "check not built yet in this round (planned, see DESIGN.md §5)")
 na("C03", "Both directions pass through the CTE decoder = ANTLR ATN interpreter over symbolic characters (about 40 kLoC generated tables + runtime); token shapes are grammar data, not Go code the engine can execute.")
 na("C06", "Untyped unmarshal is builder.* over reflect.New/MakeSlice/MapOf/SetMapIndex/Append and a reference filler: a reflection-defined heap outside the engine's value model.")
 na("C17", "Goroutine interleavings over sync.Map, WaitGroup and atomics: the engine has no concurrency semantics.")
 na("C20", "Pointer-graph discovery uses reflect.Value.Pointer, go-duplicates (unsafe) and deferred setter closures over reflected fields; graph isomorphism over a symbolic heap is outside the value model.")
 na("C21", "Field extraction/order/omission is reflect.StructField/tags over arbitrary struct types (reflect.StructOf in the quantifier) plus regexp; no leaf kernel carries the property.")
+claim("C10",
+      "Every event history up to the bound (structural alphabet forked by the engine, ids/integers/version as solver variables) is run through the real rules validator and a reference automaton written from the statement; after every event z3 shows the two verdicts agree.",
+      "Reference automaton = DESIGN.md A.2 (harness/C10). Bounds: history length 5 quick / 6 thorough. Markers/references (C13), arrays (C11), comments/padding not generated.",
+      "DESIGN.md §5 C10")
+claim("C12",
+      "Two keys of one map / record type in every pair of event forms (PosInt, NegInt, Int, BigInt<=2 words, string/RID whole, as array, chunked with any split, UID, bool) with fully symbolic values: z3 shows the second key is rejected iff both denote the same value.",
+      "Oracle: integers by sign and 128-bit magnitude, strings by bytes, kinds distinct. NegativeInt(0) excluded (denotes -0.0). Times not generated.",
+      "DESIGN.md §5 C12")
+
+# everything else that is planned but has no check yet
+PLANNED = ["C%02d" % k for k in range(1, 30)]
